@@ -108,7 +108,9 @@ func (v *variablesDefaultValueExtractionVisitor) EnterVariableDefinition(ref int
 	}
 
 	isListVariable := v.operation.TypeIsList(v.operation.VariableDefinitions[ref].Type)
-	if isListVariable && len(valueBytes) > 0 && valueBytes[0] != '[' {
+	// list coercion wraps a single non-null value; a null default stays null
+	isNullDefault := v.operation.VariableDefinitionDefaultValue(ref).Kind == ast.ValueKindNull
+	if isListVariable && !isNullDefault && len(valueBytes) > 0 && valueBytes[0] != '[' {
 		listWraps := v.operation.TypeNumberOfListWraps(v.operation.VariableDefinitions[ref].Type)
 		for range listWraps {
 			valueBytes = append([]byte{'['}, append(valueBytes, ']')...)
